@@ -64,7 +64,7 @@ def worker(prop, tier, idxs, outpath, seed):
     H = importlib.import_module('harness.' + prop)
     cfgs = H.configs(tier)
     max_paths = getattr(H, 'MAX_PATHS', {}).get(tier, 4000)
-    timeout_ms = getattr(H, 'TIMEOUT_MS', {}).get(tier, 60000 if tier == 'quick' else 300000)
+    timeout_ms = getattr(H, 'TIMEOUT_MS', {}).get(tier, 30000 if tier == 'quick' else 120000)
     traced_cases = set()
     with open(outpath, 'w') as f:
         for i in idxs:
@@ -77,6 +77,8 @@ def worker(prop, tier, idxs, outpath, seed):
                 traced_cases.add(cfg['case'])
                 tracer = FuncTrace()
                 sys.setprofile(tracer)
+            budget = getattr(H, 'CFG_BUDGET_S', {}).get(tier, 150 if tier == 'quick' else 900)
+            core.C.deadline = time.time() + budget
             try:
                 res = run.run_symbolic(case, cfg, max_paths=max_paths, seed=seed, timeout_ms=timeout_ms)
             except BaseException as e:
@@ -84,6 +86,7 @@ def worker(prop, tier, idxs, outpath, seed):
                            notes=[], samples=[], unsupported=[f'harness error {type(e).__name__}: {e} '
                                                               + traceback.format_exc()[-600:]])
             finally:
+                core.C.deadline = None
                 if tracer:
                     sys.setprofile(None)
             # replay candidate counterexamples on the unmodified float implementation
